@@ -308,6 +308,22 @@ def ordering(ctx, facts):
             srcs = {x.value.id for x in ast.walk(n.value) if isinstance(x, ast.Attribute) and isinstance(x.value, ast.Name) and x.value.id in ('self', other)}
             if len(srcs) == 1:
                 objs[n.targets[0].id] = 1 if 'self' in srcs else 2
+    # aliases: x = a ; t = (a, b) ; a2, b2 = t  (helper extraction leaves such chains behind)
+    tuples = {}
+    for _ in range(4):
+        for n in ast.walk(fn):
+            if not (isinstance(n, ast.Assign) and len(n.targets) == 1):
+                continue
+            t, v = n.targets[0], n.value
+            if isinstance(t, ast.Name) and isinstance(v, ast.Name) and v.id in objs:
+                objs[t.id] = objs[v.id]
+            elif isinstance(t, ast.Name) and isinstance(v, ast.Tuple) and all(isinstance(x, ast.Name) and x.id in objs for x in v.elts):
+                tuples[t.id] = [objs[x.id] for x in v.elts]
+            elif isinstance(t, ast.Tuple) and all(isinstance(x, ast.Name) for x in t.elts):
+                src = [objs.get(x.id) for x in v.elts] if isinstance(v, ast.Tuple) and all(isinstance(x, ast.Name) for x in v.elts) else tuples.get(v.id) if isinstance(v, ast.Name) else None
+                if src and len(src) == len(t.elts) and all(k is not None for k in src):
+                    for x, k in zip(t.elts, src):
+                        objs[x.id] = k
     paths = fn_paths(fn)
     for label, sc, expect in scen:
         base = {}
